@@ -564,8 +564,10 @@ impl Builders {
 #[derive(Clone, Debug, Serialize, Deserialize, PartialEq, Eq, Hash)]
 pub struct AnyMapCase {
     pub base: TokCase,
-    pub left: Vec<u16>,
-    pub right: Vec<u16>,
+    /// 1-3 successive (left, right) mappings
+    pub maps: Vec<(Vec<u16>, Vec<u16>)>,
+    /// load base.user after the mappings (instead of before)
+    pub user_after: bool,
 }
 
 pub struct AnyMapping;
@@ -588,51 +590,88 @@ impl Sub for AnyMapping {
             ..TokCaseParams::default()
         };
         let ids = || vec(prop_oneof![6 => 0u16..9, 1 => Just(u16::MAX), 1 => any::<u16>()], 0..=9);
-        (tok_case(p), ids(), ids(), 0u8..4, vec(any::<u16>(), 8), vec(any::<u16>(), 8))
-            .prop_map(|(base, mut left, mut right, valid, lk, rk)| {
-                // a quarter of the cases use valid permutations on one or both sides
+        (
+            tok_case(p),
+            vec((ids(), ids(), 0u8..4, vec(any::<u16>(), 8), vec(any::<u16>(), 8)), 1..=3),
+            any::<bool>(),
+        )
+            .prop_map(|(mut base, raw, user_after)| {
+                // most mappings are valid permutations on one or both sides, so that sequences
+                // of accepted mappings (followed by a user lexicon) occur
                 let nl = base.spec.conn.num_left();
                 let nr = base.spec.conn.num_right();
-                if valid == 0 || valid == 1 {
-                    left = crate::props::common::perm_from_keys(&lk, nl);
+                let maps = raw
+                    .into_iter()
+                    .map(|(mut left, mut right, valid, lk, rk)| {
+                        if valid != 3 {
+                            left = crate::props::common::perm_from_keys(&lk, nl);
+                        }
+                        if valid != 2 {
+                            right = crate::props::common::perm_from_keys(&rk, nr);
+                        }
+                        (left, right)
+                    })
+                    .collect();
+                if let Some(u) = &base.user {
+                    let extra: String = u.iter().take(3).map(|r| r.surface.clone()).collect();
+                    base.sentences.push(extra);
                 }
-                if valid == 0 || valid == 2 {
-                    right = crate::props::common::perm_from_keys(&rk, nr);
-                }
-                AnyMapCase { base, left, right }
+                AnyMapCase { base, maps, user_after }
             })
             .boxed()
     }
     fn rule(&self) -> String {
-        "arbitrary id sequences (length 0-9, values mostly 0..8, u16::MAX, random) as left/right mappings of a valid dictionary (± user lexicon); oracle: map_connection_ids_from_iter returns Ok or Err without panicking, \
-         and an accepted mapping leaves a dictionary that tokenizes the sentences structurally validly; non-trivial = every case; distinct = hash(sizes, sequences)".into()
+        "a valid dictionary, then 1-3 successive mappings (valid permutations on both sides in half of the cases, otherwise arbitrary id sequences of length 0-9 with values 0..8, u16::MAX or random on one side), with the user lexicon \
+         loaded before or after them; oracle: map_connection_ids_from_iter and reset_user_lexicon_from_reader return Ok or Err without panicking, and whatever dictionary results tokenizes the sentences (incl. user surfaces) structurally validly; \
+         non-trivial = every case; distinct = hash(sizes, sequences, order)".into()
     }
     fn check(&self, case: &AnyMapCase, ctx: &mut Ctx) -> Result<(), String> {
         let b = &case.base;
         let files = b.spec.render();
-        let d = crate::props::common::build_case_dict(&files, b.user.as_deref(), None, false)?;
+        let user = b.user.as_deref();
+        let mut d = crate::props::common::build_case_dict(&files, if case.user_after { None } else { user }, None, false)?;
         ctx.eval();
-        let r = guard(|| d.map_connection_ids_from_iter(case.left.iter().copied(), case.right.iter().copied()))
-            .map_err(|p| format!("map_connection_ids_from_iter({:?}, {:?}) on {}x{}: {p}", case.left, case.right, b.spec.conn.num_right(), b.spec.conn.num_left()))?;
-        match r {
-            Err(_) => ctx.label("rejected"),
-            Ok(d) => {
-                ctx.label("accepted");
-                let tokenizer = vibrato::Tokenizer::new(d);
-                let mut w = tokenizer.new_worker();
-                for s in &b.sentences {
-                    let toks = guard(|| {
-                        w.reset_sentence(s);
-                        w.tokenize();
-                        tokens_of(&w)
-                    })
-                    .map_err(|p| format!("after accepted mapping {:?}/{:?}: tokenize({s:?}): {p}", case.left, case.right))?;
-                    structural(s, &toks, false)?;
+        let mut accepted = 0;
+        for (i, (l, r)) in case.maps.iter().enumerate() {
+            let res = guard(|| d.map_connection_ids_from_iter(l.iter().copied(), r.iter().copied()))
+                .map_err(|p| format!("mapping {i} ({l:?}, {r:?}) of {:?} on {}x{}: {p}", case.maps, b.spec.conn.num_right(), b.spec.conn.num_left()))?;
+            match res {
+                Ok(x) => {
+                    d = x;
+                    accepted += 1;
+                }
+                Err(_) => {
+                    ctx.label("rejected");
+                    ctx.nontrivial(&(b.spec.conn.num_left(), b.spec.conn.num_right(), &case.maps, case.user_after));
+                    return Ok(());
                 }
             }
         }
-        ctx.nontrivial(&(b.spec.conn.num_left(), b.spec.conn.num_right(), &case.left, &case.right, b.spec.conn.kind()));
-        ctx.sample(|| serde_json::json!({"left": case.left, "right": case.right, "connector": format!("{}x{}", b.spec.conn.num_right(), b.spec.conn.num_left())}));
+        if case.user_after {
+            if let Some(u) = user {
+                let csv = render_lex_rows(u, 0);
+                match guard(|| d.reset_user_lexicon_from_reader(Some(csv.as_bytes()))).map_err(|p| format!("user lexicon after mappings {:?}: {p}", case.maps))? {
+                    Ok(x) => d = x,
+                    Err(e) => return Err(format!("valid user lexicon rejected after {accepted} accepted mappings: {e}")),
+                }
+            }
+        }
+        ctx.label(&format!("accepted_{accepted}_mappings"));
+        ctx.label_if(case.user_after && user.is_some(), "user_lexicon_after_mappings");
+        let tokenizer = vibrato::Tokenizer::new(d);
+        let mut w = tokenizer.new_worker();
+        for s in &b.sentences {
+            let toks = guard(|| {
+                w.reset_sentence(s);
+                w.tokenize();
+                tokens_of(&w)
+            })
+            .map_err(|p| format!("after accepted mappings {:?} (user lexicon after: {}): tokenize({s:?}): {p}", case.maps, case.user_after))?;
+            ctx.eval();
+            structural(s, &toks, false)?;
+        }
+        ctx.nontrivial(&(b.spec.conn.num_left(), b.spec.conn.num_right(), &case.maps, case.user_after, b.spec.conn.kind()));
+        ctx.sample(|| serde_json::json!({"maps": case.maps, "user_after": case.user_after, "connector": format!("{}x{}", b.spec.conn.num_right(), b.spec.conn.num_left())}));
         Ok(())
     }
 }
